@@ -20,6 +20,8 @@ SPEC = {
     ],
     "engines": [
         {"name": "silencer", "pkg": "./silencer", "search_cases": 10000},
+        # a real writer goroutine racing one real Mutes call (real time, no seam): the call after both returned is exact
+        {"name": "mutesrace", "pkg": "./mutesrace", "search_cases": 60, "timeout_quick": 300},
     ],
     "rule": "random histories on one real silence.Silences + silence.Silencer under synctest virtual time (1 s grid): Set create/edit "
             "(compatible; every minimal variation of the stored matcher sets - operator only, value only, name only, one matcher added / "
